@@ -23,12 +23,14 @@ type ctxKey string
 const srvConnKey ctxKey = "srvconn"
 
 type Plan struct {
+	WaitCtx bool   // handler waits for its context to be cancelled (reports CtxMissing if that never happens)
 	Gated   bool   // handler waits for Release(tok) (or ctx.Done)
 	Outcome string // ok | err | panic:<kind>
 	release chan struct{}
 	// streams
 	Step       chan struct{} // if non-nil, one receive per value
-	NoClose    bool          // keep the stream open until the context is cancelled
+	NoClose    bool          // keep the stream open until the context is cancelled (or Release)
+	NoCloseMs  int           // extra patience for NoClose streams
 	CloseEarly int           // close after that many values (0: after all)
 }
 
@@ -151,6 +153,7 @@ func (w *World) Close() {
 	w.mu.Unlock()
 	for _, c := range cl {
 		if c.Closer != nil {
+			w.Rec.Emit("CloserStart", "cli", c.Name) // end of scenario: whatever is cancelled from here on has a cause
 			done := make(chan struct{})
 			go func(c *Client) { c.Closer(); close(done) }(c)
 			select {
@@ -278,7 +281,14 @@ func (h *H) enter(ctx context.Context, tok int, method string) (*Plan, func(res 
 
 func (h *H) body(ctx context.Context, tok int, method string) (int, error) {
 	p, leave := h.enter(ctx, tok, method)
-	if p.Gated {
+	if p.WaitCtx {
+		select {
+		case <-ctx.Done():
+		case <-p.release:
+		case <-time.After(patience(2 * time.Second)):
+			h.w.Rec.Emit("CtxMissing", "call", tok)
+		}
+	} else if p.Gated {
 		select {
 		case <-p.release:
 		case <-ctx.Done():
@@ -424,6 +434,10 @@ func (h *H) Sub(ctx context.Context, tok int, n int) (<-chan [2]int, error) {
 			if p.Step != nil {
 				select {
 				case <-p.Step:
+				case <-p.release: // told to finish: the handler closes its stream early
+					w.Rec.Emit("HandlerChanClose", "call", tok)
+					close(out)
+					return
 				case <-ctx.Done():
 					close(out)
 					return
@@ -438,7 +452,14 @@ func (h *H) Sub(ctx context.Context, tok int, n int) (<-chan [2]int, error) {
 			}
 		}
 		if p.NoClose {
-			<-ctx.Done()
+			select {
+			case <-ctx.Done():
+			case <-p.release:
+			case <-time.After(patience(time.Duration(p.NoCloseMs+2000) * time.Millisecond)):
+				if p.WaitCtx {
+					w.Rec.Emit("CtxMissing", "call", tok)
+				}
+			}
 			close(out)
 			return
 		}
@@ -774,7 +795,10 @@ func patience(d time.Duration) time.Duration {
 }
 
 // Quiesce issues a probe call on the client and records what is still outstanding.
-func (w *World) Quiesce(c *Client, probeTok int, grace time.Duration) {
+func (w *World) Quiesce(c *Client, probeTok int, grace time.Duration) { w.QuiesceX(c, probeTok, grace) }
+
+// QuiesceX is Quiesce with extra fields for the Quiesce event.
+func (w *World) QuiesceX(c *Client, probeTok int, grace time.Duration, extra ...interface{}) {
 	grace = patience(grace)
 	probe := "none"
 	if c != nil {
@@ -818,7 +842,7 @@ func (w *World) Quiesce(c *Client, probeTok int, grace time.Duration) {
 	if c != nil {
 		name = c.Name
 	}
-	w.Rec.Emit("Quiesce", "cli", name, "probe", probe, "waiting", intsOrEmpty(waiting), "lost", intsOrEmpty(lost))
+	w.Rec.Emit("Quiesce", append([]interface{}{"cli", name, "probe", probe, "waiting", intsOrEmpty(waiting), "lost", intsOrEmpty(lost)}, extra...)...)
 }
 
 func intsOrEmpty(a []int) []int {
